@@ -276,17 +276,9 @@ func (t *rTree) stat(p string) (syscall.Errno, string) {
 
 // ---- the file system under test ----
 
-type rFS interface {
-	hackpadfs.FS
-	hackpadfs.OpenFileFS
-	hackpadfs.MkdirFS
-	hackpadfs.MkdirAllFS
-	hackpadfs.RemoveFS
-	hackpadfs.RenameFS
-	hackpadfs.StatFS
-	hackpadfs.ChmodFS
-	hackpadfs.ChtimesFS
-}
+// rFS: the file system under test, always driven through the package-level helpers so that
+// compositions (mount, Sub, capability masks) can be plugged in.
+type rFS = hackpadfs.FS
 
 var rCleanup []string
 
@@ -310,7 +302,7 @@ func rNewFS() rFS {
 		if err != nil {
 			panic(err)
 		}
-		return sub.(rFS)
+		return sub
 	}
 	if verifParam("TARGET") == 2 {
 		// keyvalue.FS over a plain Store: serial fallback transactions
@@ -387,7 +379,7 @@ func rSymTree(fs rFS, t *rTree) {
 			verifAssert(e == 0, "pre-state: model refused WriteFile")
 		case 2:
 			perm := rPerm(id + ".perm")
-			verifAssert(fs.Mkdir(p, perm) == nil, "pre-state: Mkdir failed")
+			verifAssert(hackpadfs.Mkdir(fs, p, perm) == nil, "pre-state: Mkdir failed")
 			e, _ := t.mkdir(p, perm)
 			verifAssert(e == 0, "pre-state: model refused Mkdir")
 		}
@@ -402,7 +394,7 @@ func rSymTree(fs rFS, t *rTree) {
 		sec := verifInt64(verifName("n", i) + ".sec")
 		verifAssume(sec >= 1)
 		verifAssume(sec < 1<<31)
-		verifAssert(fs.Chtimes(p, time.Unix(sec, 0), time.Unix(sec, 0)) == nil, "pre-state: Chtimes failed")
+		verifAssert(hackpadfs.Chtimes(fs, p, time.Unix(sec, 0), time.Unix(sec, 0)) == nil, "pre-state: Chtimes failed")
 		e, _ := t.chtimes(p, sec)
 		verifAssert(e == 0, "pre-state: model refused Chtimes")
 	}
@@ -417,7 +409,7 @@ func rIsNotExist(err error) bool {
 // rCompare checks that fs shows exactly the model's tree over the closure.
 func rCompare(fs rFS, t *rTree, when string) {
 	for _, p := range rClosure() {
-		info, err := fs.Stat(p)
+		info, err := hackpadfs.Stat(fs, p)
 		want := t.get(p)
 		if t.walk(p) != 0 {
 			want = &rNode{}
@@ -531,16 +523,16 @@ func rStep(fs rFS, t *rTree, op int, allowRootMutation bool) rResult {
 	switch op {
 	case 0:
 		perm := hackpadfs.FileMode(verifUint32("perm"))
-		r.err = fs.Mkdir(p, perm|0700)
+		r.err = hackpadfs.Mkdir(fs, p, perm|0700)
 		r.errno, r.epath = t.mkdir(p, perm|0700)
 	case 1:
 		perm := hackpadfs.FileMode(verifUint32("perm"))
-		r.err = fs.MkdirAll(p, perm|0700)
+		r.err = hackpadfs.MkdirAll(fs, p, perm|0700)
 		r.errno, r.epath = t.mkdirAll(p, perm|0700)
 	case 2:
 		flag := rFlag("flag")
 		perm := hackpadfs.FileMode(verifUint32("perm"))
-		f, err := fs.OpenFile(p, flag, perm|0600)
+		f, err := hackpadfs.OpenFile(fs, p, flag, perm|0600)
 		if err == nil {
 			verifAssert(f.Close() == nil, "Close of a freshly opened file failed")
 		}
@@ -552,7 +544,7 @@ func rStep(fs rFS, t *rTree, op int, allowRootMutation bool) rResult {
 		r.err = hackpadfs.WriteFullFile(fs, p, data, perm|0600)
 		r.errno, r.epath = t.writeFile(p, data, perm|0600)
 	case 4:
-		r.err = fs.Remove(p)
+		r.err = hackpadfs.Remove(fs, p)
 		r.errno, r.epath = t.remove(p)
 	case 5:
 		r.err = hackpadfs.RemoveAll(fs, p)
@@ -574,20 +566,20 @@ func rStep(fs rFS, t *rTree, op int, allowRootMutation bool) rResult {
 				verifTag("newparent", "not-a-dir")
 			}
 		}
-		r.err = fs.Rename(p, n)
+		r.err = hackpadfs.Rename(fs, p, n)
 		r.errno = t.rename(p, n)
 	case 7:
 		mode := hackpadfs.FileMode(verifUint32("mode"))
-		r.err = fs.Chmod(p, mode|0700)
+		r.err = hackpadfs.Chmod(fs, p, mode|0700)
 		r.errno, r.epath = t.chmod(p, mode|0700)
 	case 8:
 		sec := verifInt64("sec")
 		verifAssume(sec >= 1)
 		verifAssume(sec < 1<<31)
-		r.err = fs.Chtimes(p, time.Unix(sec, 0), time.Unix(sec, 0))
+		r.err = hackpadfs.Chtimes(fs, p, time.Unix(sec, 0), time.Unix(sec, 0))
 		r.errno, r.epath = t.chtimes(p, sec)
 	case 9:
-		_, r.err = fs.Stat(p)
+		_, r.err = hackpadfs.Stat(fs, p)
 		r.errno, r.epath = t.stat(p)
 	case 10:
 		_, r.err = hackpadfs.ReadDir(fs, p)
